@@ -1,30 +1,20 @@
 import MxV.Model.Serialize
+import MxV.Model.XmlRoundTrip
 /-! # C16 — serialisation is well-formed, escaping-safe, deterministic and side-effect free
 * escaping round trip: what `_escape_cdata` / `_escape_attrib` emit is read back, by entity and
   character-reference expansion, as exactly the original string — for **all** strings (the reader
   below models the part of an XML parser that the seven references the escaper can emit exercise;
   carriage returns in *text* are outside the statement because XML line-end normalisation applies
   before reference expansion; in attributes they are emitted as `&#13;` and do survive);
-* determinism / side-effect freedom: `Serialize.toString` is a function of the tree (no state);
+* determinism / side-effect freedom: `Serialize.toString` is a function of the tree (no state, so
+  nothing to prove on the model side);
   that the *code* builds a fresh ElementTree per call and leaves the element untouched is checked by
   the correspondence run (repeated and interleaved `to_string()` calls, subtree calls);
 * a subtree serialises to the same content alone as inside its parent, indentation aside:
-  `render_shift`. -/
+  `render_shift` / `subtree_alone_eq_in_parent` (here even the indentation agrees, because the
+  subtree's own level is its depth in the parent). -/
 namespace C16
 open Serialize
-
-def escT : List Char → List Char
-  | [] => []
-  | c :: r =>
-    (if c == '&' then "&amp;".toList else if c == '<' then "&lt;".toList else if c == '>' then "&gt;".toList
-     else [c]) ++ escT r
-
-def escA : List Char → List Char
-  | [] => []
-  | c :: r =>
-    (if c == '&' then "&amp;".toList else if c == '<' then "&lt;".toList else if c == '>' then "&gt;".toList
-     else if c == '"' then "&quot;".toList else if c == '\r' then "&#13;".toList
-     else if c == '\n' then "&#10;".toList else if c == '\t' then "&#09;".toList else [c]) ++ escA r
 
 /-- expansion of the references the two escapers can produce -/
 def unesc : List Char → List Char
@@ -113,12 +103,83 @@ theorem escaped_attr_has_no_quote (s : List Char) : '"' ∉ escA s ∧ '<' ∉ e
                 · subst h7; simp [ih]
                 · simp [h1, h2, h3, h4, h5, h6, h7, ih]; exact ⟨fun h => h4 h.symm, fun h => h2 h.symm⟩
 
-/-- the executable escapers used by the driver are these functions -/
-example : escText "a<b&c>\"d" = String.ofList (escT "a<b&c>\"d".toList) := by decide
-example : escAttr "a<b&c>\"d\n\t" = String.ofList (escA "a<b&c>\"d\n\t".toList) := by decide
+/-- the executable escapers used by the driver are these functions, packed into `String`s -/
+example (s : String) : escText s = String.ofList (escT s.toList) := rfl
+example (s : String) : escAttr s = String.ofList (escA s.toList) := rfl
 
-/-- determinism: serialising twice gives the same text (a function has no memory) -/
-theorem toString_deterministic (level : Nat) (n : XNode) : toString level n = toString level n := rfl
+/-! ### a subtree serialises alone exactly as inside its parent
+`render base d n` is the text of `n` at depth `d` below a root serialised at tree level `base`;
+serialised on its own the subtree's level is `base + d`. The two texts are *identical* (not only
+up to indentation): everything `ET.indent` writes depends on `base + d` only. -/
+mutual
+theorem render_shift : (base d : Nat) → (n : XNode) → renderL base d n = renderL (base + d) 0 n
+  | base, d, ⟨name, attrs, text, children⟩ => by
+    cases children with
+    | nil => simp [renderL]
+    | cons c cs =>
+      simp only [renderL, Nat.add_zero]
+      rw [renderKids_shift base d (c :: cs)]
+theorem renderKids_shift : (base d : Nat) → (l : List XNode) → renderKidsL base d l = renderKidsL (base + d) 0 l
+  | _, _, [] => by simp [renderKidsL]
+  | base, d, [c] => by
+    simp only [renderKidsL, Nat.add_zero]
+    rw [render_shift base (d + 1) c, render_shift (base + d) (0 + 1) c]
+    simp [Nat.add_assoc]
+  | base, d, c :: c' :: r => by
+    simp only [renderKidsL, Nat.add_zero]
+    rw [render_shift base (d + 1) c, render_shift (base + d) (0 + 1) c, renderKids_shift base d (c' :: r)]
+    simp [Nat.add_assoc]
+end
+
+/-- `to_string()` of a subtree at tree level `level + d` is, final newline aside, the slice its parent's
+    `to_string()` contains for it -/
+theorem subtree_alone_eq_in_parent (level d : Nat) (n : XNode) :
+    Serialize.toString (level + d) n = String.ofList (renderL level d n ++ ['\n']) := by
+  unfold Serialize.toString
+  rw [render_shift level d n]
+
+/-- non-vacuity: a two-level tree, the child rendered inside and alone -/
+example :
+    let child : XNode := ⟨"step".toList, [], some "C<".toList, []⟩
+    let parent : XNode := ⟨"pitch".toList, [("id".toList, "p\"1".toList)], none, [child, ⟨"octave".toList, [], some "4".toList, []⟩]⟩
+    Serialize.toString 0 parent = "<pitch id=\"p&quot;1\">\n  <step>C&lt;</step>\n  <octave>4</octave>\n</pitch>\n" ∧
+    Serialize.toString 1 child = "<step>C&lt;</step>\n" := by decide
+
+/-! ### what `to_string()` writes is read back exactly (`Model/XmlRoundTrip.lean`)
+`parseNode` is a reader for the XML subset the serialiser emits; `canon` forgets only what `ET.indent`
+overwrites (blank text of an element that has children) and the `None` / `''` distinction of an empty
+leaf. No hypothesis on the strings in text and attribute position. -/
+
+/-- reading back the serialisation of any well-formed tree, at any level, followed by anything,
+    returns the (canonical) tree and leaves exactly what followed -/
+theorem to_string_decodes (level d : Nat) (n : XNode) (rest : List Char) (h : WF n = true) :
+    parseNode (size n) (renderL level d n ++ rest) = some (canon n, rest) :=
+  parseNode_render n level d (size n) rest h (Nat.le_refl _)
+
+/-- hence two trees with the same serialisation are the same document: `to_string()` loses nothing
+    but what `canon` names, whatever the strings are -/
+theorem to_string_injective (l1 d1 l2 d2 : Nat) (n m : XNode) (hn : WF n = true) (hm : WF m = true)
+    (h : renderL l1 d1 n = renderL l2 d2 m) : canon n = canon m := by
+  have a := parseNode_render n l1 d1 (size n + size m) [] hn (by omega)
+  have b := parseNode_render m l2 d2 (size n + size m) [] hm (by omega)
+  rw [h] at a
+  rw [a] at b
+  simpa using b
+
+/-- a tree that is already canonical (no blank text above children, no empty-string leaf) is
+    returned unchanged: every text and attribute string is recovered exactly -/
+theorem canonical_tree_recovered (level : Nat) (n : XNode) (h : WF n = true) (hc : canon n = n) :
+    parseNode (size n) (renderL level 0 n ++ ['\n']) = some (n, ['\n']) := by
+  have := to_string_decodes level 0 n ['\n'] h
+  rwa [hc] at this
+
+/-- non-vacuity: a concrete document with markup characters, quotes, white space and a non-BMP character -/
+example :
+    let child : XNode := ⟨"words".toList, [("font-family".toList, "a\"b<c>&\n\t".toList)], some " x < y & z > w \"q\" 𝄞 ".toList, []⟩
+    let doc : XNode := ⟨"direction-type".toList, [], none, [child, ⟨"coda".toList, [], none, []⟩]⟩
+    WF doc = true ∧
+      (parseNode (size doc) (renderL 2 0 doc ++ ['\n'])).map (fun p => (renderL 0 0 p.1, p.2)) =
+        some (renderL 0 0 doc, ['\n']) := by decide +kernel
 
 end C16
 
@@ -126,3 +187,8 @@ end C16
 #print axioms C16.escape_attr_rt
 #print axioms C16.escaped_text_has_no_markup
 #print axioms C16.escaped_attr_has_no_quote
+#print axioms C16.render_shift
+#print axioms C16.subtree_alone_eq_in_parent
+#print axioms C16.to_string_decodes
+#print axioms C16.to_string_injective
+#print axioms C16.canonical_tree_recovered
